@@ -43,6 +43,14 @@ CHECKS = {
             "DeadlineDecides (+ NoHang liveness) for seven contender configurations (direct both ways, relay, strangers, wrong-key "
             "peers); behaviours are replayed on a real TransitSender/TransitReceiver on the simulated TCP fabric with state "
             "comparison after every step; TransitSelObs.tla decides", "3/C07"),
+    "C10": ("DilationL4.tla: outbound queue / ack / watermark / replay-on-reconnect model; TLC checks InOrderOnce / NothingForgotten / "
+            "Goal (+ eventual delivery) with cuts at every record; behaviours are replayed in both directions on two real Managers "
+            "(real Outbound, Inbound, SubChannels, endpoints, reconnect state machine) over scripted L2 connections with delivered "
+            "callbacks compared after every step; DilMidObs.tla decides", "3/C10"),
+    "C13": ("DilationSub.tla interprets the SubChannel transition table extracted from the tree, plus Inbound/SubchannelDemultiplex; "
+            "TLC checks OpensOnce / NothingAfterLost / DataInOrder / IdsDisjoint / UnexpectedRefused / NoInternal for listen-before/"
+            "after-open, expected sets, half-closeable protocols, both sides opening; behaviours replayed on real Managers built "
+            "with expected_subprotocols the way dilate() builds them; DilMidObs.tla decides", "3/C13"),
     "C12": ("DilationL2.tla: token-stream model of one L2 direction (relay reply, prologue, Noise handshake, KCM, records) with one "
             "adversarial replacement at every position; TLC checks ManagerOnlyAfterKCM / NothingAfterFault / FaultDrops / "
             "CleanDelivers and enumerates 76 record classes (7 types x id/seqnum boundary values x payload lengths around the Noise "
@@ -105,6 +113,9 @@ NOTES = {
            "judged only once a complete manipulated frame has been consumed",
     "C07": "<=3 contenders per configuration, a unit split at most once, scripted relay and strangers; HKDF-derived handshakes "
            "cannot be produced without the key",
+    "C10": "L2 connections are scripted at record granularity (byte-level loss is C12's concern: a partial frame is a lost frame); "
+           "<=8 records and <=3 cuts in TLC/simulation",
+    "C13": "runs over one reliable connection (C10 is the interface); <=2 subchannels, <=2 writes per end in TLC",
     "C12": "noiseprotocol is not installed: harness/stubs/noise stands in (real ChaCha20-Poly1305, 65535-byte limit); truncated tokens "
            "and absurd length prefixes leave the receiver waiting and are not required to drop",
     "C19": "the word lists in the spec are a frozen copy of the pinned commit; os.urandom is assumed uniform; TLC enumerates all "
